@@ -1,5 +1,5 @@
-(* C10 driver: the extracted naive reference (spec/ElectionSpec.v) on the scenario; the
-   implementation's observation must equal it token for token (per event: frame assigned by
+(* C10 driver: the extracted naive reference (spec/ElectionSpec.v) AND the extracted line-by-line model of
+   abft (model/AbftRun.v) on the scenario; the implementation's observation must equal both token for token (per event: frame assigned by
    Build and Process result; blocks: epoch, frame, Atropos, sealed, cheaters; epoch and last decided
    frame).  For tiny single-epoch scenarios the forkless-cause relation of the reference is
    cross-checked against FcSpec.fc_spec (graph definition owned by the vector-index property). *)
@@ -7,14 +7,19 @@ open Model
 open Conv
 open Drv
 open Refparse
+open Refrunabft
 
 let eval inp obs =
   let s = parse inp in
   let res = run_reference s in
   let m = event_tokens res @ List.init (unopened s res) (fun _ -> "skip") @ block_tokens res in
   let cross = (match s.eps with [d] when s.nev <= 13 -> fc_crosscheck s.vals d | _ -> true) in
-  { default_verdict with model_obs = m; spec_ok = Some (m = obs); model_spec_ok = cross;
+  (* the extracted line-by-line model of abft on the same scenario: impl vs model (model_obs), impl vs
+     reference (spec_ok: the property), model vs reference (model_spec_ok: impl_refines_spec, tested) *)
+  let a = c10_tokens s in
+  { default_verdict with model_obs = a; spec_ok = Some (m = obs); model_spec_ok = cross && (a = m);
     nontrivial = any_block res;
-    note = (if cross then "" else "fc_n differs from FcSpec.fc_spec") }
+    note = (if not cross then "fc_n differs from FcSpec.fc_spec"
+            else if a <> m then "abft model differs from the reference: model=[" ^ String.concat " " a ^ "] reference=[" ^ String.concat " " m ^ "]" else "") }
 
 let () = run eval
